@@ -181,7 +181,7 @@ def gen_flags(rng, focus, caps):
     if caps.get("hardlink") and rng.chance(1, 5) and focus not in ("C02", "C17"):
         o["hardlinks"] = True
         if rng.chance(2, 3): f.append("-H"); c["h"] = 1
-    elif caps.get("hardlink") and focus == "C02" and rng.chance(1, 3):
+    elif caps.get("hardlink") and focus == "C02" and rng.chance(1, 2):
         o["hardlinks"] = True          # source link groups WITHOUT -H: the histories hard-link the destination into a snapshot outside
     if rng.chance(1, 6):
         mn = rng.pick([1, 10, 100, 4096]); f += ["--min-size", str(mn)]; c["min"] = mn
@@ -213,6 +213,12 @@ def gen_c07_case(rng):
     for i in range(dels): dst[f"x{i}"] = F(b"stale")
     if rng.chance(1, 3): src["new"] = F(b"new file")
     flags = ["--delete", "--delete-threshold", str(thr), "-j", str(rng.pick([1, 4]))]
+    links = "p"
+    if rng.chance(1, 3):
+        # source symlinks for which NOTHING is transferred (skip mode; dangling ones in follow mode): planned entries that
+        # are no destination entries — they must not dilute the share either (seeded change C07c)
+        links = rng.pick(["s", "f"]); flags += ["--links", "skip" if links == "s" else "follow"]
+        for i in range(rng.range(3, 14)): src[f"ln{i}"] = L(rng.pick(["nowhere", "gone/away"]) if links == "f" else rng.pick(["nowhere", "k0", "."]))
     # sy's own metadata must not dilute the share: left behind by earlier runs, or created by this very run
     k = rng.below(6)
     if k == 0: dst[".sy-dir-cache.json"] = F(b"{}")
@@ -221,7 +227,7 @@ def gen_c07_case(rng):
     if with_db: flags += ["--checksum", "--checksum-db", "true"]
     tie = 1 if (cnt > 0 and (dels / cnt) * 100.0 > float(thr)) else 0       # the f64 expression of sync/mod.rs
     exact_tie = dels * 100 == thr * cnt
-    cfg = {"delete": 1, "thr": thr, "tie": tie if exact_tie else 0}
+    cfg = {"delete": 1, "thr": thr, "tie": tie if exact_tie else 0, "links": links}
     if with_db: cfg["cmp"] = "c"
     return src, dst, flags, cfg, {}, [], ("tie" if exact_tie else "above" if dels * 100 > thr * cnt else "below")
 
